@@ -115,7 +115,9 @@ func c16MutatingLock(c *Ctx) *RuleResult {
 					s := exprStr(gd.Cond)
 					switch {
 					case gd.Pos && resN != "" && s == resN+" > 0":
-					case resErr != "" && guardErrIsNil(info, gd, resErr):
+					case resErr != "" && resN == "" && guardErrIsNil(info, gd, resErr):
+						// (a call that also reports a byte count may have changed part of the
+						// contents although it failed: its invalidation must not depend on err)
 					default:
 						extraOK = false
 					}
@@ -127,7 +129,7 @@ func c16MutatingLock(c *Ctx) *RuleResult {
 			if okR {
 				r.ok(construct, posOf(p, m), "cachedDigest = BadDigest follows, conditioned only on the call's own results")
 			} else {
-				r.bad(c.Prop, construct, posOf(p, m), "after the file's contents change the cached digest is not invalidated on every successful path: a later upload reuses a digest of the old contents")
+				r.bad(c.Prop, construct, posOf(p, m), "after the file's contents change the cached digest is not invalidated on every path on which bytes were changed (for a write that reports a byte count this includes partial writes that end in an error): a later upload reuses a digest of the old contents")
 			}
 		}
 		// callers of helpers
@@ -506,6 +508,6 @@ func init() {
 		Level: "other",
 		Explanation: "Structural necessary conditions, on all paths: the contents of a pool-backed file change only under the lock obtained through lockMutatingData (which waits for uploads) and the cached digest is invalidated after every successful change; digests are only cached from frozen readers; one guarded close site of the backing file; reference-adding operations refuse a zero count (no resurrection), Unlink is forwarded only at zero; frozen readers are closed once or handed to a buffer. Lifetime over all histories and digest equality with the stored bytes are not decided.",
 		Assumptions: []string{"buffers built from a reader close it exactly once (bb-storage contract)"},
-		Rules:       []RuleFunc{c16MutatingLock, c16Lifetime, c16Frozen},
+		Rules:       []RuleFunc{c16MutatingLock, c16Lifetime, c16Frozen, c16LinkForwarding, c13LinkBalance},
 	})
 }
